@@ -1,7 +1,7 @@
 #!/usr/bin/env python3
 """Store a confirmed seeded change under /verif/seeded/<ID>-agent<round>/.
 
-  tools/store_seed.py <round> <ID> <agent-out-dir> <first_run: caught|missed|...> <detected signatures, comma separated> [strengthening text]
+  tools/store_seed.py <round> <ID> <agent-out-dir> <first_run: caught|missed|...> <detected signatures, separated by ;> [strengthening text]
 
 Copies patch.diff, the demonstration test and demo.md, and writes meta.json (the agent's own
 meta plus what was confirmed here and which check signatures detect the change).
@@ -40,7 +40,7 @@ def main():
         },
         "checks_run": {
             "command": "tools/mutate.py --scratch N seeded/%s-agent%s/patch.diff %s" % (pid, rnd, pid),
-            "detected_by": {"%s quick" % pid: [s for s in sigs.split(",") if s]},
+            "detected_by": {"%s quick" % pid: [s for s in sigs.split(";") if s]},
         },
         "first_run_with_the_checks_as_they_stood_before_this_round": first,
         "detected_by_own_property_check_on_first_run": first == "caught",
